@@ -401,6 +401,8 @@ def sib5(ctx, pid):
     good_app = apps and all(a[0] == "call" and a[1] == KECCAK for a in apps)
     if good_ret and good_app:
         ctx.ok(c, f.loc(), "hashes are appended leaf -> root and returned as tuple(reversed(...)), i.e. root -> leaf", rule="PROV10")
+    elif not good_ret and any(util.opaque_heads(r, ("gen",)) for r in rets):
+        ctx.unsure(c, f.loc(), "set returns `%s`: a comprehension this rule does not read; order of the returned hashes not decided" % "; ".join(tstr(r)[:50] for r in rets), rule="PROV10")
     elif not good_ret:
         ctx.bad(c, f.loc(), "set returns `%s`; the leaf -> root list must be reversed before it is returned" % "; ".join(tstr(r)[:50] for r in rets), rule="PROV10")
     else:
